@@ -119,4 +119,144 @@ theorem autAssignAdm_numeric {env : Env} (he : EnvOK env) {N r : Nat} {big : Boo
   · have := autU_le_d1 (N := N) (a := c.g) (key := key) (sk := s) (gInv := gInv) (EL := EL) (rout := c.g.rank) hb hd hcov1 hG hG0
     exact_mod_cast this
 
+/-- the error constant of an executed automorphism into `sout` limbs of the operand's radix, covered regime, `dsize = 1` -/
+theorem autU_le_d1' {N : Nat} {a : GLWE} {key : Ks.Key} {sk : List Poly} {gInv : Int} {EL : ℕ → ℕ → Poly} {sout rout : Nat} {Gmax : Int}
+    (hb : a.base2k = key.base2k) (hd : key.dsize = 1) (hcov : a.size ≤ key.mat.size)
+    (hG : gadgetBound N key.base2k (aDftOf a) key EL ≤ Gmax) (hG0 : 0 ≤ Gmax) :
+    autU N a.base2k sout rout a key sk gInv EL
+      ≤ ((Gmax * 2 ^ (key.base2k * (sout - key.mat.size)) : Int) : ℚ)
+        + ((1 + snorm (min rout (sk.map (σ gInv)).length) (sk.map (σ gInv)) : Int) : ℚ) := by
+  rw [autU_eq (convIn_same hb)]
+  unfold autBound
+  rw [convSize_same hb, KsNum.dropBound_d1 N key.base2k _ _ key hd]
+  have ht1 : C02.normTol (key.base2k * a.size) (a.base2k * a.size) = 0 := by
+    unfold C02.normTol; rw [if_pos (by rw [hb])]
+  rw [ht1]
+  set sn' : Int := 1 + snorm (min rout (sk.map (σ gInv)).length) (sk.map (σ gInv)) with hsn
+  have hsn0 : 0 ≤ sn' := by
+    have : 0 ≤ snorm (min rout (sk.map (σ gInv)).length) (sk.map (σ gInv)) := by
+      unfold snorm
+      apply List.sum_nonneg
+      intro x hx
+      obtain ⟨i, _, rfl⟩ := List.mem_map.mp hx
+      exact CoreEnc.norm1_nonneg _
+    omega
+  set Pa := a.base2k * a.size with hPa
+  set Pk := key.base2k * key.mat.size with hPk
+  set Pr := a.base2k * sout with hPr
+  set J := key.base2k * (sout - key.mat.size) with hJ
+  have htol : C02.normTol Pr Pk ≤ 2 ^ Pk := by
+    unfold C02.normTol; split
+    · positivity
+    · exact le_refl _
+  have hPrJ : Pr ≤ Pk + J := by
+    rw [hPr, hPk, hJ, hb, ← Nat.mul_add]; exact Nat.mul_le_mul_left _ (by omega)
+  have hnum : (2 : Int) ^ (Pr + key.base2k * (key.mat.size - a.size)) * (sn' * 0) + 2 ^ (Pa + Pr) * gadgetBound N key.base2k (aDftOf a) key EL
+      + 2 ^ (Pa + Pr) * 0 + 2 ^ Pa * (sn' * C02.normTol Pr Pk) ≤ (Gmax * 2 ^ J + sn') * 2 ^ (Pa + Pk) := by
+    have h1 : (2 : Int) ^ (Pa + Pr) * gadgetBound N key.base2k (aDftOf a) key EL ≤ 2 ^ (Pa + Pk) * (Gmax * 2 ^ J) := by
+      calc (2 : Int) ^ (Pa + Pr) * gadgetBound N key.base2k (aDftOf a) key EL ≤ 2 ^ (Pa + Pr) * Gmax :=
+            mul_le_mul_of_nonneg_left hG (by positivity)
+        _ ≤ 2 ^ (Pa + (Pk + J)) * Gmax := mul_le_mul_of_nonneg_right (pow_le_pow_right₀ (by norm_num) (by omega)) hG0
+        _ = 2 ^ (Pa + Pk) * (Gmax * 2 ^ J) := by rw [← Nat.add_assoc, pow_add (2 : Int) (Pa + Pk) J]; ring
+    have h2 : (2 : Int) ^ Pa * (sn' * C02.normTol Pr Pk) ≤ 2 ^ (Pa + Pk) * sn' := by
+      calc (2 : Int) ^ Pa * (sn' * C02.normTol Pr Pk) ≤ 2 ^ Pa * (sn' * 2 ^ Pk) :=
+            mul_le_mul_of_nonneg_left (mul_le_mul_of_nonneg_left htol hsn0) (by positivity)
+        _ = 2 ^ (Pa + Pk) * sn' := by rw [pow_add]; ring
+    linarith
+  have hpos : (0 : ℚ) < 2 ^ (Pa + Pk) := by positivity
+  rw [div_le_iff₀ hpos]
+  have hcast : (((2 : Int) ^ (Pr + key.base2k * (key.mat.size - a.size)) * (sn' * 0) + 2 ^ (Pa + Pr) * gadgetBound N key.base2k (aDftOf a) key EL
+      + 2 ^ (Pa + Pr) * 0 + 2 ^ Pa * (sn' * C02.normTol Pr Pk) : Int) : ℚ) ≤ (((Gmax * 2 ^ J + sn') * 2 ^ (Pa + Pk) : Int) : ℚ) := by
+    exact_mod_cast hnum
+  push_cast at hcast ⊢
+  linarith
+
+/-- the numeric hypotheses on an automorphism key with `dsize = 1` in the evaluator's radix (everything but the operand) -/
+structure AutKeyNum (env : Env) (N r : Nat) (big : Bool) (key : Ks.Key) (s : List Poly) (gInv : Int) (EL KL : ℕ → ℕ → Poly)
+    (Kb Emax : Int) : Prop where
+  hkb : key.base2k = env.base2k
+  hd : key.dsize = 1
+  hg : GalOk key.p N
+  hsk : Ks.AllLen N s
+  hinv : ∀ p ∈ s, σ key.p (σ gInv p) = p
+  hrin : key.rankIn = r
+  hrout : key.rankOut = r
+  hc0 : 0 < key.mat.colsOut
+  hM : ∀ j q, (key.mat.entry j q).length = N
+  hS : key.mat.rows ≤ key.mat.size
+  hs : key.mat.colsIn ≤ s.length
+  hEL : ∀ i r, (EL i r).length = N
+  hKL : ∀ i r, (KL i r).length = N
+  hkey : ∀ i, i < key.mat.colsIn → ∀ r, r < key.mat.rows →
+    Gadget.val (Ks.radix N key.base2k) key.mat.size (Ks.keyPhase N (s.map (σ gInv)) key.mat i r) =
+      Ks.ι N (s.getD i []) * Ks.radix N key.base2k ^ (key.mat.size - (r + 1) * key.dsize) + Ks.ι N (EL i r)
+        + Ks.radix N key.base2k ^ key.mat.size * Ks.ι N (KL i r)
+  hK0 : 0 ≤ Kb
+  hK : ∀ j q, ∀ x ∈ key.mat.entry j q, |x| ≤ Kb
+  hE0 : 0 ≤ Emax
+  hE : ∀ i r, Hal.normInf (EL i r) ≤ Emax
+  hroom : ((key.mat.colsIn * key.mat.rows : Nat) : Int) * (N * 2 ^ (env.base2k - 1) * Kb) + (2 ^ (env.base2k - 1) + 2 ^ env.base2k) + 8
+    ≤ 2 ^ (bitsOf big - 2)
+
+/-- C03's hypotheses for one operand `x` of balanced digits, from the numeric key hypotheses -/
+theorem autAdm_numeric {env : Env} (he : EnvOK env) {N r : Nat} {big : Bool} {key : Ks.Key} {s : List Poly} {gInv : Int}
+    {EL KL : ℕ → ℕ → Poly} {Kb Emax : Int} (hk : AutKeyNum env N r big key s gInv EL KL Kb Emax) {x : GLWE}
+    (hx : GB N env.base2k r (half env.base2k) x) (hcov1 : x.size ≤ key.mat.size) (hcov2 : x.size ≤ key.mat.rows) :
+    AutAdm big N x key s gInv EL KL (2 ^ (env.base2k - 1))
+        (((key.mat.colsIn * key.mat.rows : Nat) : Int) * (N * 2 ^ (env.base2k - 1) * Kb)) r ∧
+      gadgetBound N key.base2k (aDftOf x) key EL ≤ key.mat.colsIn * (key.mat.rows * (N * 2 ^ (env.base2k - 1) * Emax)) := by
+  have hb : x.base2k = key.base2k := by rw [hx.bk, hk.hkb]
+  have hhalf0 : (0 : Int) ≤ 2 ^ (env.base2k - 1) := by positivity
+  have hcols : ∀ col ∈ x.cols, ∀ l ∈ col, ∀ v ∈ l, |v| ≤ 2 ^ (env.base2k - 1) := hx.nb
+  obtain ⟨_, _, _, _, _, dA⟩ := aDft_spec x hx.wf
+  have hG := KsNum.gadgetBound_d1 N key.base2k (aDftOf x) key hk.hd EL (2 ^ (env.base2k - 1)) Emax hhalf0 hk.hE0 dA
+    (aDft_act_bound hx.wf hcols) hk.hE
+  refine ⟨⟨hk.hg, hk.hsk, hk.hinv, by rw [hx.rk, hk.hrin], hk.hrout.symm, hk.hc0, by rw [hk.hd], hk.hM, by rw [hk.hd]; have := hk.hS; omega,
+      by rw [hk.hkb]; exact he.lo, by rw [hk.hkb]; have := he.hi; omega,
+      hhalf0, ?_, hcols, by have := hk.hK0; positivity, by rw [hk.hkb]; exact hk.hroom, ?_, hk.hs, hk.hEL, hk.hKL, hk.hkey, ?_, ?_⟩, hG⟩
+  · have : (2 : Int) ^ (env.base2k - 1) ≤ 2 ^ 60 := pow_le_pow_right₀ (by norm_num) (by have := he.hi; omega)
+    norm_num at this ⊢; omega
+  · intro aConv hconv i hi
+    rw [convIn_same hb] at hconv
+    injection hconv with hconv
+    subst hconv
+    exact KsNum.prodOf_bound_d1 N r x key hk.hd hx.wf (2 ^ (env.base2k - 1)) Kb hhalf0 hk.hK0 hcols hk.hK i hi
+  · rw [convSize_same hb]; exact hcov1
+  · rw [convSize_same hb, hk.hd]; omega
+
+/-- **`AutIntoAdm` from numeric shape conditions, automorphism keys with `dsize = 1`** (out-of-place rotations / conjugation) -/
+theorem autIntoAdm_numeric {env : Env} (he : EnvOK env) {N r : Nat} {big : Bool} {dst a : DCt} (hd : DOK env N r dst) (ha : DOK env N r a)
+    {m : Ct} (hm : shiftInto env dst.ct a.ct 0 = .ok m) {key : Ks.Key} {s : List Poly} {gInv : Int} {EL KL : ℕ → ℕ → Poly} {Kb Emax : Int}
+    (hk : AutKeyNum env N r big key s gInv EL KL Kb Emax)
+    (hcA1 : a.g.size ≤ key.mat.size) (hcA2 : a.g.size ≤ key.mat.rows) (hcD1 : dst.g.size ≤ key.mat.size) (hcD2 : dst.g.size ≤ key.mat.rows) :
+    AutIntoAdm env N big s
+      ((((key.mat.colsIn * (key.mat.rows * (N * 2 ^ (env.base2k - 1) * Emax))) * 2 ^ (key.base2k * (dst.g.size - key.mat.size)) : Int) : ℚ)
+        + ((1 + snorm (min r (s.map (σ gInv)).length) (s.map (σ gInv)) : Int) : ℚ)) key dst a := by
+  have hG0 : (0 : Int) ≤ key.mat.colsIn * (key.mat.rows * (N * 2 ^ (env.base2k - 1) * Emax)) := by have := hk.hE0; positivity
+  refine ⟨hk.hkb, gInv, EL, KL, 2 ^ (env.base2k - 1), ((key.mat.colsIn * key.mat.rows : Nat) : Int) * (N * 2 ^ (env.base2k - 1) * Kb), ?_, ?_⟩
+  · intro _
+    obtain ⟨hadm, hG⟩ := autAdm_numeric he hk ha hcA1 hcA2
+    refine ⟨by rw [hd.rk]; exact hadm, ?_⟩
+    have hb : a.g.base2k = key.base2k := by rw [ha.bk, hk.hkb]
+    have := autU_le_d1' (N := N) (a := a.g) (key := key) (sk := s) (gInv := gInv) (EL := EL) (sout := dst.g.size) (rout := dst.g.rank)
+      hb hk.hd hcA1 hG hG0
+    have e : dst.g.base2k = a.g.base2k := by rw [hd.bk, ha.bk]
+    rw [e, hd.rk]
+    rw [hd.rk] at this
+    exact_mod_cast this
+  · intro g1 hg1
+    obtain ⟨g1', e1, hgb1, sz1, _⟩ := lsh_step he.lo he.hi hd ha.full (unaryShift env dst.ct a.ct 0) m.md.logBudget a.md.logBudget 0
+      (by simpa [DCt.ct] using unaryShift_spec env dst.ct a.ct m hm 0)
+    have : g1 = g1' := by
+      have := hg1.symm.trans e1
+      injection this
+    subst this
+    obtain ⟨hadm, hG⟩ := autAdm_numeric he hk hgb1 (by rw [sz1]; exact hcD1) (by rw [sz1]; exact hcD2)
+    refine ⟨by rw [hgb1.rk]; exact hadm, ?_⟩
+    have hb : g1.base2k = key.base2k := by rw [hgb1.bk, hk.hkb]
+    have := autU_le_d1' (N := N) (a := g1) (key := key) (sk := s) (gInv := gInv) (EL := EL) (sout := g1.size) (rout := g1.rank)
+      hb hk.hd (by rw [sz1]; exact hcD1) hG hG0
+    rw [hgb1.rk, sz1] at this ⊢
+    exact_mod_cast this
+
 end Ckks
